@@ -95,8 +95,6 @@ if "benign" in cats:
                 return False
             seg = re.sub(bv["pattern"], bv["repl"], text[a:b], flags=re.S if bv.get("flags") == "s" else 0)
             for x, y in bv.get("pre", []):
-                if x not in seg:
-                    return False
                 seg = seg.replace(x, y)
             if seg == text[a:b]:
                 return False
